@@ -105,6 +105,8 @@ package certstore
 //@          && argOf(putPowerTable, 1, 2) == firstInstance && argOf(putPowerTable, 1, 3) == initialPowerTable
 //@   at GetPowerTable 1
 //@     before[latest_table_is_derived_from_the_datastore] len(cs.latestPowerTable) == 0 && (noWrap(cs) ==> arg(2) == cs.latestCertificate.GPBFTInstance + 1)
+//@     before[the_first_instance_is_known_before_tables_are_derived] cs.firstInstance == firstInstance
+//@     before[an_existing_store_is_reopened_only_with_its_own_first_instance] res(readInstanceNumber, 1, 1) == nil ==> res(readInstanceNumber, 1, 0) == firstInstance
 
 //@ func OpenStore
 //@   property C09, C10
@@ -113,6 +115,7 @@ package certstore
 //@   at GetPowerTable 1
 //@     before[latest_table_is_derived_from_the_datastore] len(cs.latestPowerTable) == 0
 //@          && (noWrap(cs) ==> arg(2) == ite(cs.latestCertificate == nil, cs.firstInstance, cs.latestCertificate.GPBFTInstance + 1))
+//@     before[the_first_instance_is_read_before_tables_are_derived] cs.firstInstance == res(readInstanceNumber, 1, 0) && res(readInstanceNumber, 1, 1) == nil && argOf(readInstanceNumber, 1, 2) == certStoreFirstKey
 
 // wipe: the tombstone is written first and deleted last; every other key is deleted while it exists; reopening
 // resumes the wipe on the datastore that DeleteAll wrote the tombstone to.
@@ -230,3 +233,69 @@ package certstore
 //@     before[a_new_subscriber_first_sees_the_latest_certificate_in_a_one_slot_channel] chancap(arg(0)) == 1 && arg(1) == cs.latestCertificate && cs.latestCertificate != nil
 //@   at return 0
 //@     before[the_registered_channel_is_the_one_returned] has(cs.subscribers, arg(0)) && chancap(arg(0)) == 1 && (cs.latestCertificate != nil ==> called(chansend, 1))
+
+// ---- the store's small helpers: which key a thing is kept under, and that what is written is what was given ----
+//@ func (*Store).keyForCert
+//@   property C09 C10 C17 C15
+//@   modifies auto
+//@   maypanic
+//@   at Sprintf 1
+//@     before[certificates_are_keyed_by_their_zero_padded_instance] arg(0) == "/certs/%016X" && len(arg(1)) == 1
+//@   at return 0
+//@     before[the_key_is_made_from_that_string] arg(0) == res(NewKey, 1) && argOf(NewKey, 1, 0) == res(Sprintf, 1)
+
+//@ func (*Store).keyForPowerTable
+//@   property C09 C10 C17
+//@   modifies auto
+//@   maypanic
+//@   at Sprintf 1
+//@     before[power_tables_are_keyed_by_their_zero_padded_instance] arg(0) == "/power/%016X" && len(arg(1)) == 1
+//@   at return 0
+//@     before[the_key_is_made_from_that_string] arg(0) == res(NewKey, 1) && argOf(NewKey, 1, 0) == res(Sprintf, 1)
+
+//@ func (*Store).putPowerTable
+//@   property C09 C10 C17
+//@   modifies auto
+//@   maypanic
+//@   at MarshalCBOR 1
+//@     before[the_given_table_is_serialised_into_a_buffer_of_its_own] *arg(0) == powerTable && arg(1) == &buf && !allocated(&buf)
+//@   at Put 1
+//@     before[the_serialisation_is_written_under_the_key_of_that_instance] res(MarshalCBOR, 1) == nil && arg(1) == res(keyForPowerTable, 1) && argOf(keyForPowerTable, 1, 1) == instance && arg(2) == res(Bytes, 1) && argOf(Bytes, 1, 0) == &buf
+
+//@ func (*Store).readPowerTable
+//@   property C09 C10
+//@   modifies auto
+//@   maypanic
+//@   at Get 1
+//@     before[the_table_is_read_from_the_key_of_that_instance] arg(1) == res(keyForPowerTable, 1) && argOf(keyForPowerTable, 1, 1) == instance
+//@   at UnmarshalCBOR 1
+//@     before[the_stored_bytes_are_what_is_decoded] arg(0) == &powerTable && arg(1) == res(NewReader, 1) && argOf(NewReader, 1, 0) == res(Get, 1, 0) && res(Get, 1, 1) == nil
+
+//@ func (*Store).readInstanceNumber
+//@   property C09 C10
+//@   modifies auto
+//@   maypanic
+//@   at Get 1
+//@     before[the_marker_is_read_from_the_given_key] arg(1) == key
+//@   at Uint64 1
+//@     before[an_eight_byte_big_endian_number_is_decoded] arg(1) == res(Get, 1, 0) && res(Get, 1, 1) == nil && len(res(Get, 1, 0)) == 8
+//@   at return 3
+//@     before[the_decoded_number_is_returned] arg(0) == res(Uint64, 1) && arg(1) == nil
+
+//@ func (*Store).writeInstanceNumber
+//@   property C09 C10 C17
+//@   modifies auto
+//@   maypanic
+//@   at Put 1
+//@     before[the_number_is_written_big_endian_under_the_given_key] arg(1) == key && arg(2) == res(AppendUint64, 1) && argOf(AppendUint64, 1, 2) == value && len(argOf(AppendUint64, 1, 1)) == 0
+
+//@ func (*Store).Get
+//@   property C09 C10 C15 C16
+//@   modifies auto
+//@   maypanic
+//@   at Get 1
+//@     before[the_certificate_is_read_from_the_key_of_that_instance] arg(1) == res(keyForCert, 1) && argOf(keyForCert, 1, 1) == instance
+//@   at UnmarshalCBOR 1
+//@     before[the_stored_bytes_are_what_is_decoded] arg(0) == &c && arg(1) == res(NewReader, 1) && argOf(NewReader, 1, 0) == res(Get, 1, 0) && res(Get, 1, 1) == nil
+//@   at return 4
+//@     before[the_decoded_certificate_is_returned] arg(0) == &c && res(UnmarshalCBOR, 1) == nil
